@@ -202,6 +202,8 @@ pub struct Viol {
     pub case: Value,
     pub detail: String,
     pub size: usize,
+    /// ordinal (within this worker's enumeration) of the case kept as the example
+    pub case_no: u64,
 }
 
 pub struct Ctx {
@@ -213,6 +215,9 @@ pub struct Ctx {
     pub case_no: u64,
     pub only_case: Option<u64>,
     pub start_after: u64,
+    /// execute cases 1..=stop_after and skip everything later (context replay of a violation
+    /// that only shows after earlier cases of the sweep)
+    pub stop_after: Option<u64>,
     pub states: u64,
     pub transitions: u64,
     pub executions: u64,
@@ -244,6 +249,7 @@ impl Ctx {
             case_no: 0,
             only_case: None,
             start_after: 0,
+            stop_after: None,
             states: 0,
             transitions: 0,
             executions: 0,
@@ -306,6 +312,7 @@ impl Ctx {
     }
 
     pub fn violation(&mut self, signature: String, detail: String, size: usize, case: impl FnOnce() -> Value) {
+        let no = self.case_no;
         match self.violations.get_mut(&signature) {
             Some(v) => {
                 v.count += 1;
@@ -313,6 +320,7 @@ impl Ctx {
                     v.size = size;
                     v.case = case();
                     v.detail = detail;
+                    v.case_no = no;
                 }
             }
             None => {
@@ -323,6 +331,7 @@ impl Ctx {
                         case: case(),
                         detail,
                         size,
+                        case_no: no,
                     },
                 );
             }
@@ -344,6 +353,11 @@ impl Ctx {
         let n = self.case_no;
         if n <= self.start_after {
             return false;
+        }
+        if let Some(stop) = self.stop_after {
+            if n > stop {
+                return false;
+            }
         }
         if let Some(only) = self.only_case {
             if n != only {
@@ -391,7 +405,7 @@ impl Ctx {
             "executions": self.executions,
             "hist": self.hist,
             "guards": self.guards,
-            "violations": self.violations.iter().map(|(k,v)| json!({"sig":k,"count":v.count,"case":v.case,"detail":v.detail,"size":v.size as u64})).collect::<Vec<_>>(),
+            "violations": self.violations.iter().map(|(k,v)| json!({"sig":k,"count":v.count,"case":v.case,"detail":v.detail,"size":v.size as u64,"case_no":v.case_no,"shard":self.shard,"nshards":self.nshards})).collect::<Vec<_>>(),
             "samples": self.samples,
             "extra": self.extra,
             "capped": self.capped,
